@@ -338,8 +338,21 @@ def skeleton_tie(prop, set_name, only=None):
 
 ARITH_THEOREMS = {"C08": ["Ru.Gen_blocksRange_spec", "Ru.C08_blocks_gen_eq_page", "Ru.C14_blocks_no_slice_panic"],
                   "C14": ["Ru.Gen_blocksRange_spec", "Ru.C14_blocks_no_slice_panic"],
-                  "C01": ["Ru.C01_fee_input_step", "Ru.C01_fee_output_step", "Ru.C01_fee_outputs_loop", "Ru.C01_fee_final"]}
-ARITH_MODULE = {"C08": "Core.Props.C08gen", "C14": "Core.Props.C08gen", "C01": "Core.Props.C01gen"}
+                  "C01": ["Ru.C01_fee_input_step", "Ru.C01_fee_output_step", "Ru.C01_fee_outputs_loop", "Ru.C01_fee_final",
+                          "Ru.Gen_verifyBlockGuards_spec", "Ru.C01_verifyBlock_reward_gen"],
+                  "C04": ["Ru.Gen_addBlockGuards_spec", "Ru.C04_addBlock_gen", "Ru.Gen_verifyBlockGuards_spec", "Ru.C04_verifyBlock_gen",
+                          "Ru.C04_verifyTxs_window_gen"],
+                  "C11": ["Ru.Gen_addTransactionGuards_spec", "Ru.C11_admitCheck_gen", "Ru.Gen_validateGuards_spec",
+                          "Ru.C11_produce_refusals_gen", "Ru.C11_produceLoop_window_gen"]}
+ARITH_MODULE = {"C08": ["Core.Props.C08gen"], "C14": ["Core.Props.C08gen"], "C01": ["Core.Props.C01gen", "Core.Props.Cguards"],
+                "C04": ["Core.Props.Cguards"], "C11": ["Core.Props.Cguards"]}
+ARITH_WHAT = {"C08": "(*Blockchain).Blocks", "C14": "(*Blockchain).Blocks",
+              "C01": "(*UtxosRegistry).CalculateFee and the reward guard of (*Blockchain).verifyBlock",
+              "C04": "the date guards of (*Blockchain).AddBlock and (*Blockchain).verifyBlock",
+              "C11": "the date guards of (*TransactionsPool).addTransaction and (*TransactionsPool).Validate"}
+ARITH_SRC = {"C08": ["verification/blockchain.go"], "C14": ["verification/blockchain.go"],
+             "C01": ["verification/utxos_registry.go", "verification/blockchain.go"], "C04": ["verification/blockchain.go"],
+             "C11": ["validation/transactions_pool.go"]}
 
 
 def arith_tie(prop):
@@ -349,9 +362,11 @@ def arith_tie(prop):
     the tree checked is a scratch tree."""
     import hashlib
     gen = LEAN / "core" / "Core" / "GenBlocks.lean"
-    src = REPO / "validatornode" / "application" / "verification" / ("utxos_registry.go" if prop == "C01" else "blockchain.go")
-    mod = ARITH_MODULE[prop]
-    what = "(*UtxosRegistry).CalculateFee" if prop == "C01" else "(*Blockchain).Blocks"
+    srcs = [REPO / "validatornode" / "application" / x for x in ARITH_SRC[prop]]
+    src = srcs[0]
+    mods = ARITH_MODULE[prop]
+    mod = " + ".join(mods)
+    what = ARITH_WHAT[prop]
     obligations, failures, theorems = [], [], []
     ok, binary, log = go_build("ruextract-arith")
     if not ok:
@@ -361,15 +376,15 @@ def arith_tie(prop):
         committed = gen.read_text() if gen.exists() else ""
         rc, out, err = run([str(binary), "--repo", str(REPO)], timeout=60)
         text = out if rc == 0 else None
-        generated = {"file": "lean/core/Core/GenBlocks.lean", "from": str(src),
-                     "source_sha256": hashlib.sha256(src.read_bytes()).hexdigest() if src.exists() else None,
+        generated = {"file": "lean/core/Core/GenBlocks.lean", "from": ", ".join(str(x) for x in srcs),
+                     "source_sha256": hashlib.sha256(b"".join(x.read_bytes() for x in srcs if x.exists())).hexdigest(),
                      "translator": "harness/cmd/ruextract-arith", "regenerated_this_run": text is not None,
                      "identical_to_previous_copy": (text == committed) if text is not None else None}
-        obligations.append({"name": "translator ruextract-arith accepts (*Blockchain).Blocks and (*UtxosRegistry).CalculateFee (fail-closed)", "ok": text is not None})
+        obligations.append({"name": "translator ruextract-arith accepts (*Blockchain).Blocks, (*UtxosRegistry).CalculateFee and the integer guards of AddBlock, verifyBlock, addTransaction, Validate (fail-closed)", "ok": text is not None})
         if text is None:
             failures.append(failure(
                 "tie", f"{prop}/tie/arith/translator-rejects-source",
-                "the Go→Lean translator rejects the current (*Blockchain).Blocks / (*UtxosRegistry).CalculateFee (a construct outside "
+                "the Go→Lean translator rejects the current (*Blockchain).Blocks / (*UtxosRegistry).CalculateFee / integer guards (a construct outside "
                 "the translated fragment), so the Gen.* definitions cannot be regenerated and " + ", ".join(ARITH_THEOREMS[prop]) +
                 " are no longer about the code: " + err[-600:], {"no_longer_checks": ARITH_THEOREMS[prop], "translator_error": err[-1500:]}, False))
             return generated, obligations, failures, theorems
@@ -378,12 +393,12 @@ def arith_tie(prop):
             if text != committed:
                 gen.write_text(text)
                 wrote = True
-            okb, blog = lake_build(LEAN / "core", [mod])
+            okb, blog = lake_build(LEAN / "core", mods)
             axmap = {}
             if okb:
                 audit_file = WORK / f"Arith-{prop}.lean"
                 audit_file.parent.mkdir(parents=True, exist_ok=True)
-                audit_file.write_text("-- generated by vlib.arith_tie; do not edit\nimport " + mod + "\n\n" +
+                audit_file.write_text("-- generated by vlib.arith_tie; do not edit\n" + "".join("import " + m + "\n" for m in mods) + "\n" +
                                       "\n".join(f"#print axioms {t}" for t in ARITH_THEOREMS[prop]) + "\n")
                 aok, axmap, alog = audit(LEAN / "core", str(audit_file))
             for t in ARITH_THEOREMS[prop]:
@@ -401,14 +416,14 @@ def arith_tie(prop):
             obligations.append({"name": f"theorems of {mod} over the arithmetic of {what} regenerated from the source", "ok": allok})
             if not allok:
                 failures.append(failure(
-                    "proof", f"{prop}/theorem/arith/" + ("Gen.fee" if prop == "C01" else "Gen.blocksRange"),
+                    "proof", f"{prop}/theorem/arith/" + {"C01": "Gen.fee", "C04": "Gen.guards", "C11": "Gen.guards"}.get(prop, "Gen.blocksRange"),
                     f"the theorems of {mod} no longer check over the arithmetic of {what} regenerated from the current "
-                    f"{src.name}:\n" + text[-1800:] + "\n" + (blog[-1200:] if not okb else ""),
+                    f"{', '.join(x.name for x in srcs)}:\n" + text[-2600:] + "\n" + (blog[-1200:] if not okb else ""),
                     {"no_longer_checks": ARITH_THEOREMS[prop], "generated": text, "build_log": blog[-3000:] if not okb else ""}, False))
         finally:
             if wrote and _alt_repo():
                 gen.write_text(committed)
-                lake_build(LEAN / "core", [mod])
+                lake_build(LEAN / "core", mods)
     return generated, obligations, failures, theorems
 
 
